@@ -36,7 +36,7 @@ var tlsFaultPorts = map[string]string{
 // Case is one replayable input.
 type Case struct {
 	ID   string `json:"id"`
-	Kind string `json:"kind"` // cut | dial | tls | connect | malformed | client | repeat | counter | label | reply | dialtl
+	Kind string `json:"kind"` // cut | dial | tls | connect | malformed | client | repeat | counter | label | reply | dialtl | certname
 	// how the client asks: plain (GET http://), https (GET https://), mitm (inside an intercepted
 	// tunnel), connect (client CONNECT). For kind=client: the listener: plain | tls | mitm.
 	Via      string `json:"via"`
@@ -109,6 +109,12 @@ type Case struct {
 	Lattice string `json:"lattice,omitempty"`
 	Scheme  string `json:"scheme,omitempty"`
 	GoneMs  int    `json:"gone_ms,omitempty"`
+	// certname (certnames.go): hostile names at the interception point. HostHex = the host of the CONNECT authority
+	// (Dims "pct": its bytes >= 0x80 percent-encoded on the wire), SNI = the server name of the ClientHello that follows
+	// the 200: same (the authority's host) | absent | other | good (SNIHex), N > 1: that many such connections at once;
+	// after them (and beside a crowd) the same instance must intercept a connection to a host it has never seen
+	SNI    string `json:"sni,omitempty"`
+	SNIHex string `json:"sni_hex,omitempty"`
 }
 
 func (c *Case) head() []byte { return core.MustUnHex(orEmpty(c.HeadHex)) }
@@ -553,5 +559,7 @@ func generate(r *core.Rand, quick bool) []*Case {
 	genAccept(g, quick)
 	// O. the dial phase as a lattice of time limits: who gives up first on an address that drops SYNs (lattice.go)
 	genLattice(g, quick)
+	// P. hostile names at the interception point: CONNECT authority x server name of the ClientHello, a fresh name after each (certnames.go)
+	genCertNames(g, quick)
 	return g.out
 }
